@@ -185,7 +185,10 @@ def coq_rs(case):
         for p in parts:
             rm = _read_entry(p, san, drop)
             rt.append("(%s, %s, %s)" % (E.cb(san), cstr(p), "None" if rm is None else "Some %s" % T.coq_rmol(rm)))
-    _, table = _run(case)
+    try:
+        _, table = _run(case)
+    except Exception:                     # the implementation itself fell over while the writer was recorded: fail closed
+        return "L [I 424242]"
     wt = []
     for b, dig, out in table:
         if out is not None and not printable(out):
